@@ -46,6 +46,7 @@ where
             source: self.source,
             filter_map: self.filter_map,
             buffer: VecDeque::new(),
+            done: false,
         }
     }
 }
@@ -55,6 +56,8 @@ pub struct FilterMapSourceIterator<S, F, T, E> {
     source: S,
     filter_map: F,
     buffer: VecDeque<Result<T, E>>,
+    /// set once the source is exhausted or has failed: it must not be polled again
+    done: bool,
 }
 
 impl<S, F, T> Iterator for FilterMapSourceIterator<S, F, T, S::Error>
@@ -64,7 +67,7 @@ where
 {
     type Item = Result<T, S::Error>;
     fn next(&mut self) -> Option<Result<T, S::Error>> {
-        let mut remaining = true;
+        let mut remaining = !self.done;
         let mut buffer = VecDeque::new();
         std::mem::swap(&mut self.buffer, &mut buffer);
         while buffer.is_empty() && remaining {
@@ -81,6 +84,9 @@ where
                     buffer.push_back(Err(err));
                     remaining = false;
                 }
+            }
+            if !remaining {
+                self.done = true;
             }
         }
         std::mem::swap(&mut self.buffer, &mut buffer);
